@@ -3,13 +3,15 @@ C09, variables: which variables an operation DECLARES versus which it USES, on m
 (`IsoVerif.Core.SelMap`, the printers' input).
 
 * `reachable`: `get_reachable_variables` / `MergedServerSelection::reachable_variables`
-  (create_merged_selection_set.rs): the variables that are TOP-LEVEL argument values (`get_variables`
-  ignores objects and lists), of scalar fields, linked fields and inline fragments; a client pointer
+  (create_merged_selection_set.rs): `get_variables` = `NonConstantValue::variables` of every argument
+  (nested ones included since the repair of F12; `reachableOld` is the function before it, which only
+  counted TOP-LEVEL variables), of scalar fields, linked fields and inline fragments; a client pointer
   entry contributes nothing (31b992f).  The operation declares exactly the definitions of these.
 * `printed`: the variables that occur in the text `generate_query_text` prints for the map: every
   `$x` inside the printed arguments, nested ones included; client pointer entries are not printed.
 
-They agree when no argument holds a variable inside an object or list (`flat`); F12 is the other case.
+They agree (`printed_eq_reachable`); before the repair they only agreed when no argument held a
+variable inside an object or list (`flat`), F12 being the other case.
 -/
 import IsoVerif.Model.Core.QueryText
 
@@ -51,13 +53,25 @@ def flatArgs : Args → Bool
 
 mutual
 def reachableSel : Sel → List Str
-  | .scalar _ _ args => topVars args
-  | .linked _ _ args _ map => topVars args ++ reachableMap map
+  | .scalar _ _ args => argVars args
+  | .linked _ _ args _ map => argVars args ++ reachableMap map
   | .clientObj .. => []
   | .frag _ map => reachableMap map
 def reachableMap : SelMap → List Str
   | [] => []
   | (_, s) :: rest => reachableSel s ++ reachableMap rest
+end
+
+mutual
+/-- before the repair of F12: only top-level variables -/
+def reachableOldSel : Sel → List Str
+  | .scalar _ _ args => topVars args
+  | .linked _ _ args _ map => topVars args ++ reachableOldMap map
+  | .clientObj .. => []
+  | .frag _ map => reachableOldMap map
+def reachableOldMap : SelMap → List Str
+  | [] => []
+  | (_, s) :: rest => reachableOldSel s ++ reachableOldMap rest
 end
 
 mutual
